@@ -404,6 +404,12 @@ func readHeader(in *io.Reader) (manifest []byte, mac []byte, err error) {
 		return nil, nil, errors.New("message authentication code not found")
 	}
 
+	// The header is complete, but an error from the input stream other than EOF must not be lost:
+	// it may have been returned together with the last bytes of the header, and the next read will not necessarily report it again
+	if err != nil && !errors.Is(err, io.EOF) {
+		return nil, nil, err
+	}
+
 	// Whatever data we read extra, add it back to the beginning of the stream
 	if n > lastNewline {
 		// We need to copy the data because the buffer will be given back
